@@ -47,3 +47,80 @@ package time
 //@   requires w != nil && p != nil && rawalloc(p, 24) && (c.mult == 1 || c.mult == 1000 || c.mult == 1000000) && -9000000000 < tsec(t) && tsec(t) < 9000000000 && 0 <= tnsec(t) && tnsec(t) < 1000000000
 //@   ensures [C19,C13] tlen() == 1 && tkind(0) == evV && ta(0) == uint64(atRes(tsec(t), tnsec(t), c.mult))
 //@   modifies w.buf, BH[w.buf]
+
+// ================================================================ parse.go (C18): RFC 3339 §5.6 as a predicate over the bytes
+//
+//   date-time = YYYY "-" MM "-" DD "T" hh ":" mm ":" ss [ ("." / ",") 1*DIGIT ] ( "Z" / ("+" / "-") hh ":" mm )
+// ("," is accepted as the fraction separator, as time.Parse does). A 10-byte YYYY-MM-DD date means midnight UTC.
+// Agreement with time.Parse is through the assumed contract that time.Parse(RFC3339) denotes exactly this grammar with
+// the fraction truncated to nanoseconds (externals.spec); here parseTime is verified against the grammar itself.
+
+//@ spec isd(s string, k int) bool = s[k] >= 48 && s[k] <= 57
+//@ spec dg(s string, k int) int = int(s[k]) - 48
+//@ spec n2(s string, k int) int = dg(s, k) * 10 + dg(s, k+1)
+//@ spec n4(s string, k int) int = dg(s, k) * 1000 + dg(s, k+1) * 100 + dg(s, k+2) * 10 + dg(s, k+3)
+//@ spec dateOK(s string) bool = isd(s,0) && isd(s,1) && isd(s,2) && isd(s,3) && s[4] == 45 && isd(s,5) && isd(s,6) && s[7] == 45 && isd(s,8) && isd(s,9)
+//@ spec clockOK(s string) bool = s[10] == 84 && isd(s,11) && isd(s,12) && s[13] == 58 && isd(s,14) && isd(s,15) && s[16] == 58 && isd(s,17) && isd(s,18)
+// zone designator starting at z: "Z" to the end, or sign hh ":" mm to the end
+//@ spec zoneOK(s string, z int) bool = (s[z] == 90 && len(s) == z + 1) || ((s[z] == 43 || s[z] == 45) && len(s) == z + 6 && isd(s,z+1) && isd(s,z+2) && s[z+3] == 58 && isd(s,z+4) && isd(s,z+5))
+//@ spec zoneOff(s string, z int) int = s[z] == 90 ? 0 : s[z] == 43 ? n2(s,z+1) * 3600 + n2(s,z+4) * 60 : -(n2(s,z+1) * 3600 + n2(s,z+4) * 60)
+// nanoseconds denoted by the fraction digits s[f..e): the first nine digits, scaled; further digits are truncated
+//@ spec fd(s string, f int, e int, j int, w int) int = (f + j < e) ? dg(s, f+j) * w : 0
+//@ spec frac9(s string, f int, e int) int = fd(s,f,e,0,100000000) + fd(s,f,e,1,10000000) + fd(s,f,e,2,1000000) + fd(s,f,e,3,100000) + fd(s,f,e,4,10000) + fd(s,f,e,5,1000) + fd(s,f,e,6,100) + fd(s,f,e,7,10) + fd(s,f,e,8,1)
+// e is the end of the digit run starting at f
+//@ ghost fend(s string, f int) int
+//@ axiom fend_def(s string, f int, e int): (f <= e && e <= len(s) && (forall k int :: f <= k && k < e ==> isd(s, k)) && (e == len(s) || !isd(s, e))) ==> fend(s, f) == e
+
+// value of the first m (<= 9) fraction digits s[f..f+m), and the scale the parser keeps beside it
+//@ spec dv(s string, f int, m int) int = m == 0 ? (0) : m == 1 ? (dg(s, f+0)) : m == 2 ? (dg(s, f+0) * 10 + dg(s, f+1)) : m == 3 ? (dg(s, f+0) * 100 + dg(s, f+1) * 10 + dg(s, f+2)) : m == 4 ? (dg(s, f+0) * 1000 + dg(s, f+1) * 100 + dg(s, f+2) * 10 + dg(s, f+3)) : m == 5 ? (dg(s, f+0) * 10000 + dg(s, f+1) * 1000 + dg(s, f+2) * 100 + dg(s, f+3) * 10 + dg(s, f+4)) : m == 6 ? (dg(s, f+0) * 100000 + dg(s, f+1) * 10000 + dg(s, f+2) * 1000 + dg(s, f+3) * 100 + dg(s, f+4) * 10 + dg(s, f+5)) : m == 7 ? (dg(s, f+0) * 1000000 + dg(s, f+1) * 100000 + dg(s, f+2) * 10000 + dg(s, f+3) * 1000 + dg(s, f+4) * 100 + dg(s, f+5) * 10 + dg(s, f+6)) : m == 8 ? (dg(s, f+0) * 10000000 + dg(s, f+1) * 1000000 + dg(s, f+2) * 100000 + dg(s, f+3) * 10000 + dg(s, f+4) * 1000 + dg(s, f+5) * 100 + dg(s, f+6) * 10 + dg(s, f+7)) : (dg(s, f+0) * 100000000 + dg(s, f+1) * 10000000 + dg(s, f+2) * 1000000 + dg(s, f+3) * 100000 + dg(s, f+4) * 10000 + dg(s, f+5) * 1000 + dg(s, f+6) * 100 + dg(s, f+7) * 10 + dg(s, f+8))
+//@ spec p10(k int) int = k == 0 ? 1 : k == 1 ? 10 : k == 2 ? 100 : k == 3 ? 1000 : k == 4 ? 10000 : k == 5 ? 100000 : k == 6 ? 1000000 : k == 7 ? 10000000 : k == 8 ? 100000000 : 1000000000
+//@ spec min9(d int) int = d < 9 ? d : 9
+//@ global errCannotParseNumber != nil
+//@ global tzMap != nil
+// the zone cache maps an offset to a location with that offset (object invariant of the cache: assumed on entry, re-established on exit)
+//@ spec tzInv() bool = forall k int :: maphas(tzMap, k) ==> mapget(tzMap, k) != nil && locoff(mapget(tzMap, k)) == k
+
+//@ func atoi2
+//@   requires len(in) >= 2
+//@   ensures [C18,C06] (isd(in,0) && isd(in,1)) <==> err == nil
+//@   ensures [C18] err == nil ==> res == n2(in, 0)
+//@   pure
+
+//@ func atoi4
+//@   requires len(in) >= 4
+//@   ensures [C18,C06] (isd(in,0) && isd(in,1) && isd(in,2) && isd(in,3)) <==> err == nil
+//@   ensures [C18] err == nil ==> res == n4(in, 0)
+//@   pure
+
+//@ func getTimezone
+//@   requires tzInv()
+//@   ensures [C18] res != nil && locoff(res) == offset && tzInv()
+//@   modifies map map[int]*time.Location, ghost lock.held
+
+//@ func parseTime
+//@   let n := len(in), e := fend(in, 20)
+//@   ensures [C18] n == 10 && dateOK(in) ==> err == nil && tsec(res) == civil(n4(in,0), n2(in,5), n2(in,8), 0, 0, 0) && tnsec(res) == 0 && toff(res) == 0
+//@   ensures [C18] n >= 20 && dateOK(in) && clockOK(in) && zoneOK(in, 19) ==> err == nil && tnsec(res) == 0 && toff(res) == zoneOff(in, 19) \
+//@        && tsec(res) == civil(n4(in,0), n2(in,5), n2(in,8), n2(in,11), n2(in,14), n2(in,17)) - int64(zoneOff(in, 19))
+//@   ensures [C18] n >= 22 && dateOK(in) && clockOK(in) && (in[19] == 46 || in[19] == 44) && isd(in, 20) && e < n && zoneOK(in, e) ==> err == nil && tnsec(res) == int64(frac9(in, 20, e)) && toff(res) == zoneOff(in, e) \
+//@        && tsec(res) == civil(n4(in,0), n2(in,5), n2(in,8), n2(in,11), n2(in,14), n2(in,17)) - int64(zoneOff(in, e))
+//@   requires tzInv()
+//@   ensures [C18] tzInv()
+//@   modifies map map[int]*time.Location, ghost lock.held
+//@   uses fend_def(in, 20, 20 + iterpos())
+//@   uses umul_exact(val, 1)
+//@   uses umul_exact(val, 10)
+//@   uses umul_exact(val, 100)
+//@   uses umul_exact(val, 1000)
+//@   uses umul_exact(val, 10000)
+//@   uses umul_exact(val, 100000)
+//@   uses umul_exact(val, 1000000)
+//@   uses umul_exact(val, 10000000)
+//@   uses umul_exact(val, 100000000)
+//@   uses umul_exact(val, 1000000000)
+//@   uses umul_exactl(1, tzh*60*60 + tzm*60)
+//@   uses umul_exactl(-1, tzh*60*60 + tzm*60)
+//@   loop 1 invariant n >= 21 && 0 <= iterpos() && iterpos() <= n - 20 && (forall k int :: 20 <= k && k < 20 + iterpos() ==> isd(in, k))
+//@   loop 1 invariant i == (iterpos() == 0 ? 0 : iterpos() - 1)
+//@   loop 1 invariant mult == p10(9 - min9(iterpos())) && val == dv(in, 20, min9(iterpos()))
+//@   loop 1 decreases (n - 20) - iterpos()
